@@ -48,6 +48,15 @@ generates the command for the task *as that configuration presents it*
 fails there but not for the method on its own is reported with the order in
 the trigger.
 
+Host names: for FORK / SSH / RSH (alone, and through find_launcher of every
+shipped order which starts or ends with one of them) the agent's own host
+name (`ru.get_hostname()`, an environment answer) is taken from every position
+of name sets in which one name is a proper prefix of another (node1 / node10 /
+node12, nid0001 / nid00012) and tasks are placed on every name of the set: a
+launcher which runs the task where the agent is must refuse a task placed on
+another node.  Fully qualified vs. short name of one host
+(node1.cluster.org / node1) is an outcome: either answer is accepted.
+
 Keys: clause | <Class>.get_launch_cmds | <METHOD{flavours}>/<trigger>, where
 the trigger is the smallest conjunction of placement attributes (`features`)
 which all failing placements of the variant share and no passing one has;
@@ -92,6 +101,21 @@ BIG_NODES   = [('m%03d' % i, 4 + i) for i in range(1, 44)]
 ALL_NODES   = SMALL_NODES + BIG_NODES
 NODE_NAME   = {idx: name for name, idx in ALL_NODES}
 NODE_POS    = {name: pos for pos, (name, idx) in enumerate(ALL_NODES)}
+
+# node name sets in which one name is a proper prefix of another, and a fully
+# qualified name next to its short form (host name pass)
+NAME_SETS   = [['node1', 'node10', 'node12'],
+               ['nid0001', 'nid00012'],
+               ['node1.cluster.org', 'node1', 'node10']]
+EXTRA_INDEX = {name: 101 + i for i, name in enumerate(
+               sorted(set(n for ns in NAME_SETS for n in ns)))}
+
+
+def node_index(name):
+    if name in NODE_POS:
+        return ALL_NODES[NODE_POS[name]][1]
+    return EXTRA_INDEX[name]
+
 
 UID  = 'task.000000'
 EXE  = '/opt/app/bin/app.exe'
@@ -469,7 +493,7 @@ def make_td(n, c, g, mpi=None, exe=EXE):
 def slots_new(pl):
     out = list()
     for name, cores, gpus in pl['ranks']:
-        idx = ALL_NODES[NODE_POS[name]][1]
+        idx = node_index(name)
         out.append(Slot(cores=[RO(index=i, occupation=1.0) for i in cores],
                         gpus=[RO(index=i, occupation=1.0) for i in gpus],
                         lfs=0, mem=0, node_index=idx, node_name=name))
@@ -493,7 +517,7 @@ def slots_old(pl):
         else:
             gmap = [list(grp[0][2])] * len(grp)
         out.append({'node_name' : name,
-                    'node_index': ALL_NODES[NODE_POS[name]][1],
+                    'node_index': node_index(name),
                     'cores'     : [list(r[1]) for r in grp],
                     'gpus'      : gmap,
                     'lfs'       : 0,
@@ -506,7 +530,7 @@ def partition_of(v, pl):
     dvms = v['lm_info'].get('details', {}).get('dvm_list')
     if not dvms:
         return None
-    idxs = set(ALL_NODES[NODE_POS[r[0]]][1] for r in pl['ranks'])
+    idxs = set(node_index(r[0]) for r in pl['ranks'])
     for pid, dvm in dvms.items():
         if idxs <= set(dvm['nodes']):
             return pid
@@ -1281,9 +1305,11 @@ def judge(v, pl, obs, sbox, lm=None):
     if r.nodes is not None:
         named = set(r.nodes)
         if v['reader'] == 'fork':
-            local = {'localhost', getattr(lm, 'node_name', 'localhost')}
-            named = set(want) if set(want) <= local and len(want) == 1 \
-                    else {'<this node>'}
+            here  = getattr(lm, 'node_name', 'localhost')
+            named = set(want) if len(want) == 1 and \
+                    name_relation(here, list(want)[0]) in \
+                    ('localhost', 'same', 'fqdn-vs-short') \
+                    else {'<this node: %s>' % here}
     elif r.nodeset is not None:
         named = set(r.nodeset)
     if named is not None:
@@ -1370,7 +1396,7 @@ def judge(v, pl, obs, sbox, lm=None):
 
     if v['reader'] == 'prte':
         pids = [pid for pid, dvm in v['lm_info']['details']['dvm_list']
-                .items() if set(ALL_NODES[NODE_POS[x[0]]][1] for x in ranks)
+                .items() if set(node_index(x[0]) for x in ranks)
                 <= set(dvm['nodes'])]
         if r.dvm not in pids:
             bad.append(('partition', 'DVM %s does not hold the nodes %s'
@@ -1384,7 +1410,24 @@ def judge(v, pl, obs, sbox, lm=None):
 
 
 def site_of(v, clause):
+    if v['reader'] == 'fork':
+        # Fork's command is the task script itself: what it starts where is
+        # decided by what can_launch lets through
+        return 'Fork.can_launch'
     return '%s.get_launch_cmds' % LM_CLASS[v['name']]
+
+
+def name_relation(agent, node):
+    '''how the name of a task's node relates to the agent's host name'''
+    if node == 'localhost'                  : return 'localhost'
+    if node == agent                        : return 'same'
+    if '.' in agent and agent.split('.')[0] == node or \
+       '.' in node  and node.split('.')[0] == agent:
+        # fully qualified vs. short name of one host: either answer is fine
+        return 'fqdn-vs-short'
+    if agent.startswith(node)               : return 'task-node-name-is-prefix-of-agent-node-name'
+    if node.startswith(agent)               : return 'agent-node-name-is-prefix-of-task-node-name'
+    return 'other-node'
 
 
 # ------------------------------------------------------------------------------
@@ -1592,6 +1635,8 @@ def _job(job):
                          targets=history_indices(pls, True))
         elif kind == 'find':
             find_pass(world, part, vid, arg)
+        elif kind == 'hosts':
+            hosts_pass(world, part, vid)
     finally:
         world.close()
     return part.dump()
@@ -1790,6 +1835,143 @@ def find_pass(world, part, order, arg, only=None):
 
 
 # ------------------------------------------------------------------------------
+# host names: single rank launchers and the agent's own node
+#
+HOST_VARIANTS = ['FORK{-}', 'SSH{ssh}', 'SSH{rsh-link}', 'RSH{-}']
+SINGLE_RANK   = ('FORK', 'SSH', 'RSH')
+
+
+class Hostname(object):
+    '''the agent runs on `name`: ru.get_hostname() is an environment answer'''
+
+    def __init__(self, name):
+        self.name = name
+
+    def __enter__(self):
+        self.saved = ru.get_hostname
+        ru.get_hostname = lambda *a, **kw: self.name
+        return self
+
+    def __exit__(self, *exc):
+        ru.get_hostname = self.saved
+        return False
+
+
+def host_placements(names, node):
+    '''tasks placed on `node` (and, for two ranks, on a second name)'''
+    other = [x for x in names if x != node]
+    out   = [{'ranks': [[node, [0], []]], 'c': 1, 'g': 0},
+             {'ranks': [[node, [3, 5], [1]]], 'c': 2, 'g': 1},
+             {'ranks': [[node, [0], []], [node, [1], []]], 'c': 1, 'g': 0}]
+    if other:
+        out.append({'ranks': [[node, [0], []], [other[0], [0], []]],
+                    'c': 1, 'g': 0})
+        out.append({'ranks': [[other[-1], [0], []], [node, [0], []]],
+                    'c': 1, 'g': 0})
+    for pl in out:
+        pl.update({'pattern': [len(pl['ranks'])], 'style': 'low',
+                   'order': 'grouped', 'hosts': True})
+    return out
+
+
+def host_cases():
+    for names in NAME_SETS:
+        for agent in names:
+            for node in names + ['localhost']:
+                for pl in host_placements(names, node):
+                    yield names, agent, node, pl
+
+
+def host_judge(part, v, pl, obs, lm, agent, node, sbox, via, replay):
+    cls, bad, r = judge(v, pl, obs, sbox, lm)
+    rel = name_relation(agent, node) if v['reader'] == 'fork' else \
+          'task-node-vs-agent-node:any'
+    part.outcome(('hosts', via, v['id'], len(pl['ranks']), pl['c'],
+                  name_relation(agent, node), cls))
+    for clause in sorted(set(c for c, _ in bad)):
+        part.violation('%s|%s|%s%s/%s%s'
+                       % (clause, site_of(v, clause), v['name'],
+                          '(via find_launcher)' if via else '',
+                          'multi-rank+' if len(pl['ranks']) > 1 else '', rel),
+                       {'what'      : '; '.join(t for c, t in bad
+                                                if c == clause),
+                        'agent node': agent,
+                        'placement' : pl['ranks'],
+                        'order'     : list(via) if via else None,
+                        'command'   : obs[2]}, replay)
+
+
+def hosts_pass(world, part, order=None, only=None):
+    '''
+    every agent node of every name set x every task node: the single rank
+    launchers alone (order None), or whatever find_launcher of the bare
+    resource manager with the shipped `order` returns
+    '''
+    n = 0
+    cases = list(host_cases()) if only is None else [only]
+    rms   = dict()
+    for names, agent, node, pl in cases:
+        with Hostname(agent):
+            if order is None:
+                for vid in HOST_VARIANTS:
+                    v  = VAR_BY_ID[vid]
+                    lm = world.launcher(v)
+                    world.clean(world.sbox)
+                    obs = drive(lm, make_task(v, pl, world.sbox), world.sbox)
+                    n  += 1
+                    host_judge(part, v, pl, obs, lm, agent, node, world.sbox,
+                               None, {'kind': 'hosts', 'order': None,
+                                      'case': [names, agent, node, pl]})
+                continue
+
+            if agent not in rms:
+                rms[agent] = bare_rm(world, order)
+                refs = collections.OrderedDict()
+                for name in order:
+                    refs[name] = world.launcher(VAR_BY_ID[ORDER_VARIANT[name]])
+                rms[agent] = (rms[agent], refs)
+            rm, refs = rms[agent]
+            old = any(VAR_BY_ID[ORDER_VARIANT[x]].get('slots') == 'old'
+                      for x in order)
+            for kind in TASK_KINDS:
+                task = make_task({'slots': 'old' if old else None,
+                                  'lm_info': {}}, pl, world.sbox, **kind)
+                expect = None
+                for name, lm in refs.items():
+                    if lm.can_launch(copy.deepcopy(task))[0]:
+                        expect = name
+                        break
+                launcher, lname = rm.find_launcher(task)
+                n += 1
+                replay = {'kind': 'hosts', 'order': list(order),
+                          'case': [names, agent, node, pl], 'task_kind': kind}
+                if lname != expect:
+                    part.violation('first-accepting|ResourceManager.'
+                                   'find_launcher|host-names',
+                                   {'what': 'returned %s, first accepting in '
+                                            '%s is %s' % (lname, list(order),
+                                                          expect),
+                                    'agent node': agent,
+                                    'placement': pl['ranks']}, replay)
+                    continue
+                part.outcome(('hosts-find', order, name_relation(agent, node),
+                              len(pl['ranks']), kind['mpi'],
+                              bool(kind['exe']), lname))
+                if lname not in SINGLE_RANK:
+                    continue
+                v = VAR_BY_ID[ORDER_VARIANT[lname]]
+                world.clean(world.sbox)
+                obs = drive(launcher, task, world.sbox)
+                host_judge(part, v, pl, obs, launcher, agent, node,
+                           world.sbox, order, replay)
+    for rm, refs in rms.values():
+        for lm in rm._launchers.values():
+            retire(lm)
+    part.cover(evaluations=n, **{'host_name_cases_find' if order
+                                 else 'host_name_cases': n})
+
+
+# ------------------------------------------------------------------------------
 #
 def merge_flavours(results):
     '''
@@ -1867,10 +2049,13 @@ def run(ctx):
             skipped.append(order)
             continue
         jobs.append(('find', order, None))
+        if order[0] in SINGLE_RANK or order[-1] in SINGLE_RANK:
+            jobs.append(('hosts', order, None))
+    jobs.append(('hosts', None, None))
 
     # long jobs first
     jobs.sort(key=lambda j: {'triples': 0, 'pairs': 1, 'find': 2,
-                             'single': 3}[j[0]])
+                             'single': 3, 'hosts': 4}[j[0]])
     results = list(seams.pmap(_job, jobs, ctx.workers))
     results, merged = merge_flavours(results)
     for res in results:
@@ -1897,8 +2082,13 @@ def run(ctx):
                  'placements x 4 task kinds (MPI flag, executable or not), '
                  'and the command of the launcher found for the task as the '
                  'configuration presents it (resource sets if JSRUN is '
-                 'configured).  distinct = distinct (variant, placement '
-                 'shape, result class)'
+                 'configured); host names: %d name sets with proper-prefix '
+                 'and FQDN/short names x agent on each name x task on each '
+                 'name or localhost x 5 one- and two-rank placements, for '
+                 'FORK/SSH/RSH alone and through find_launcher of every '
+                 'shipped order which starts or ends with one of them.  '
+                 'distinct = distinct (variant, placement shape, result '
+                 'class)'
                  % (len(VARIANTS), n_pl,
                     'each of %d representative earlier placements (every '
                     'rank/node pattern once, cycling through all cores x '
@@ -1907,7 +2097,8 @@ def run(ctx):
                     if ctx.quick else 'every other placement (all ordered '
                     'pairs)',
                     '' if ctx.quick else ', and as last of every ordered '
-                    'triple of the %d representative placements' % n_rep))
+                    'triple of the %d representative placements' % n_rep,
+                    len(NAME_SETS)))
     if skipped:
         ctx.notes.append('orders with launch methods outside the anchors of '
                          'C09 are not run: %s' % [list(o) for o in skipped])
@@ -1936,7 +2127,19 @@ def replay(ctx, data):
     part  = report.Part()
     rc    = 0
     try:
-        if r['kind'] == 'find':
+        if r['kind'] == 'hosts':
+            names, agent, node, pl = r['case']
+            if r.get('task_kind'):
+                TASK_KINDS[:] = [r['task_kind']]
+            print('agent node:', agent, ' (name set %s)' % names)
+            print('placement :', pl['ranks'])
+            print('order     :', r['order'] or 'single rank launchers alone')
+            hosts_pass(world, part, tuple(r['order']) if r['order'] else None,
+                       only=(names, agent, node, pl))
+            for k, (d, _) in part.violations.items():
+                print('command   :', d.get('command'))
+
+        elif r['kind'] == 'find':
             pl = r['placement']
             TASK_KINDS[:] = [r['task_kind']]
             find_pass(world, part, tuple(r['order']), None, only=pl)
